@@ -1,7 +1,7 @@
 from ast import Attribute, Subscript, Load, NodeVisitor
 
 from .compat import PY2
-from .scope import FuncScope, Flow, SourceScope, ClassScope
+from .scope import FuncScope, Flow, SourceScope, ClassScope, get_first_body_node_loc
 from .name import AssignedName, ImportedName
 from .util import (np, get_expr_end, get_indexes_for_target, visitor, get_any_marked_name)
 
@@ -28,6 +28,12 @@ def extract_scope(source, project):
     extract(source.tree, scope.flow)
     scope.resolve_star_imports(project)
     return scope
+
+
+def body_loc(body):
+    # type: (list[ast.stmt]) -> tuple[int, int]
+    """Start of a block: the first decorator if the block starts with a decorated def/class"""
+    return get_first_body_node_loc(body) or np(body[0])
 
 
 def marked_flow(scope):
@@ -119,7 +125,7 @@ class extract_visitor(NodeVisitor):
         body_start = self.make_flow('for', [cur])
         for nn, _idx in get_indexes_for_target(node.target, [], []):
             name = nn  # type: ast.Name # type: ignore[assignment]
-            body_start.add_name(AssignedName(name.id, np(node.body[0]), np(name), node.iter))
+            body_start.add_name(AssignedName(name.id, body_loc(node.body), np(name), node.iter))
         body = self.visit_in_flow(node.body, body_start)
         body_start.loop(body)
 
@@ -187,9 +193,9 @@ class extract_visitor(NodeVisitor):
             fh = self.make_flow('except', [cur, body])
             if h.name:
                 if PY2:
-                    fh.add_name(AssignedName(h.name.id, np(h.body[0]), np(h), h.type))
+                    fh.add_name(AssignedName(h.name.id, body_loc(h.body), np(h), h.type))
                 else:
-                    fh.add_name(AssignedName(h.name, np(h.body[0]), np(h), h.type))  # type: ignore[arg-type]
+                    fh.add_name(AssignedName(h.name, body_loc(h.body), np(h), h.type))  # type: ignore[arg-type]
             if h.type:
                 self.visit(h.type)
             handlers.append(self.visit_in_flow(h.body, fh))
@@ -311,7 +317,7 @@ class extract_visitor(NodeVisitor):
                 if i + 1 < len(items):
                     loc = np(items[i + 1].context_expr)
                 else:
-                    loc = np(node.body[0])
+                    loc = body_loc(node.body)
                 for nn, _idx in get_indexes_for_target(it.optional_vars, [], []):
                     name = nn  # type: ast.Name # type: ignore[assignment]
                     self.flow.add_name(AssignedName(name.id, loc, np(name), node))
